@@ -273,8 +273,8 @@ def tr_fault(run, objs=None):
     v.update(cpp_values(run, {"file_oflags": fl}, includes=("fcntl.h",)))
     for k, f, fn in (("devtty_path", "devttyoutput", "snoopy_output_devttyoutput"), ("devnull_path", "devnulloutput", "snoopy_output_devnulloutput")):
         b = func_body(strip_comments(run.src("src/output/%s.c" % f)), fn) or ""
-        m = re.search(r"return\s+snoopy_output_fileoutput\s*\(\s*logMessage\s*,\s*" + STR + r"\s*\)\s*;", b)
-        v[k] = c_unescape(m.group(1)) if m else b""
+        from .tr_output import fixed_path_arg
+        v[k] = fixed_path_arg(run, "src/output/%s.c" % f, b)
     db = func_body(strip_comments(run.src("src/output/devlogoutput.c")), "snoopy_output_devlogoutput") or ""
     m = re.search(r"snoopy_output_socketoutput\s*\(\s*logMessageWithPrefix\s*,\s*" + STR + r"\s*\)", db)
     v["devlog_path"] = c_unescape(m.group(1)) if m else b""
